@@ -1,7 +1,9 @@
 import Aplang.Model.Natives
 /-!
 # Lemmas on the file-system model (`Aplang.Fs`): lookup after `put` / `erase` / `eraseUnder`,
-the fold of `dirCreateAll`, and the no-duplicate-paths invariant.
+the fold of `dirCreateAll`, the no-duplicate-paths invariant, path resolution with `..` (`resolve`),
+and the model as it was before `..` was brought in (`Aplang.Fs.Lexical`) with the proof that the two
+agree on every path string without a `..` component.
 -/
 namespace Aplang.Fs
 
@@ -107,8 +109,6 @@ theorem mem_prefixes_iff {p q : Path} : q ∈ prefixes p ↔ q ≠ [] ∧ q.isPr
 
 /-! ## the fold of `dirCreateAll` -/
 
-def mkdirStep (acc : Tree) (q : Path) : Tree := if pathExists acc q then acc else put acc q .dir
-
 theorem find?_mkdirStep (t : Tree) (a q : Path) (ha : a ≠ []) :
     find? (mkdirStep t a) q = if q = a ∧ find? t q = none then some .dir else find? t q := by
   unfold mkdirStep pathExists
@@ -170,5 +170,472 @@ theorem noDup_foldl_mkdir (qs : List Path) (t : Tree) (h : NoDupPaths t) : NoDup
   induction qs generalizing t with
   | nil => exact h
   | cons a as ih => exact ih _ (noDup_mkdirStep t a h)
+
+theorem find?_eraseBelow (t : Tree) (p q : Path) :
+    find? (eraseBelow t p) q =
+      if q = [] then some .dir else if p.isPrefixOf q = true ∧ q ≠ p then none else find? t q := by
+  unfold find? eraseBelow
+  by_cases hq : q = []
+  · simp [hq]
+  · simp only [beq_iff_eq, hq, ↓reduceIte]
+    by_cases hp : p.isPrefixOf q = true ∧ q ≠ p
+    · simp only [hp, ne_eq, not_false_eq_true, and_self, ↓reduceIte]
+      have : List.find? (fun e => e.1 == q)
+          (List.filter (fun e => (e.1 == p && e.1 != []) || !(p.isPrefixOf e.1)) t) = none := by
+        simp only [List.find?_eq_none, List.mem_filter, beq_iff_eq]
+        rintro e ⟨_, he⟩ heq
+        rw [heq, hp.1] at he
+        simp [hp.2] at he
+      rw [this]; rfl
+    · rw [if_neg hp]
+      congr 1
+      rw [List.find?_filter]
+      apply list_find?_congr
+      intro e _
+      by_cases heq : e.1 = q
+      · simp only [heq, beq_self_eq_true]
+        by_cases hpre : p.isPrefixOf q = true
+        · have : q = p := Classical.not_not.1 fun hne => hp ⟨hpre, hne⟩
+          subst this
+          simp [hq]
+        · simp [hpre]
+      · simp [heq]
+
+theorem eraseBelow_nil (t : Tree) : eraseBelow t [] = [] := by
+  unfold eraseBelow
+  rw [List.filter_eq_nil_iff]
+  intro e _
+  simp [List.isPrefixOf]
+
+theorem noDup_eraseBelow (t : Tree) (p : Path) (h : NoDupPaths t) : NoDupPaths (eraseBelow t p) := noDup_filter t _ h
+
+/-! ## `isDir` / `isFile` / `pathExists` through `find?` -/
+
+theorem isDir_iff (t : Tree) (p : Path) : isDir t p = true ↔ find? t p = some .dir := by
+  unfold isDir
+  cases find? t p with
+  | none => simp
+  | some n => cases n <;> simp
+
+theorem isFile_iff (t : Tree) (p : Path) : isFile t p = true ↔ ∃ c, find? t p = some (.file c) := by
+  unfold isFile
+  cases find? t p with
+  | none => simp
+  | some n => cases n <;> simp
+
+theorem isDir_congr {t t' : Tree} {p : Path} (h : find? t' p = find? t p) : isDir t' p = isDir t p := by
+  unfold isDir; rw [h]
+
+theorem isDir_nil (t : Tree) : isDir t [] = true := by simp [isDir, find?_nil]
+
+/-- a file is an entry of the association list -/
+theorem mem_of_find?_file {t : Tree} {p : Path} {c : Str} (h : find? t p = some (.file c)) :
+    (p, FsNode.file c) ∈ t := by
+  unfold find? at h
+  split at h
+  · cases h
+  · cases hf : List.find? (fun e => e.1 == p) t with
+    | none => simp [hf] at h
+    | some e =>
+      simp only [hf, Option.map_some, Option.some.injEq] at h
+      have hm := List.mem_of_find?_eq_some hf
+      have hp := List.find?_some hf
+      simp only [beq_iff_eq] at hp
+      obtain ⟨e1, e2⟩ := e
+      simp only at hp h
+      subst hp; subst h
+      exact hm
+
+theorem dropLast_append_of_getLast? {α} {l : List α} {a : α} (h : l.getLast? = some a) : l.dropLast ++ [a] = l := by
+  obtain ⟨ys, rfl⟩ := List.getLast?_eq_some_iff.1 h
+  simp
+
+theorem isDir_put_file (t : Tree) (p : Path) (c : Str) (q : Path) (h : isDir t p = false) :
+    isDir (put t p (.file c)) q = isDir t q := by
+  unfold isDir at *
+  rw [find?_put]
+  by_cases h0 : q = []
+  · subst h0; simp [find?_nil]
+  · by_cases hq : q = p
+    · subst hq; simp only [h0, ↓reduceIte]; rw [h]
+    · simp only [h0, hq, ↓reduceIte]
+
+theorem isDir_erase_of_not_dir (t : Tree) (p q : Path) (h : isDir t p = false) :
+    isDir (erase t p) q = isDir t q := by
+  unfold isDir at *
+  rw [find?_erase]
+  by_cases h0 : q = []
+  · subst h0; simp [find?_nil]
+  · by_cases hq : q = p
+    · subst hq; simp only [h0, ↓reduceIte]; rw [h]
+    · simp only [h0, hq, ↓reduceIte]
+
+/-! ## path resolution -/
+
+theorem not_mem_of_noDotDot {s : Str} (h : noDotDot s = true) : dotdot ∉ components s := by
+  unfold noDotDot at h
+  simpa using h
+
+theorem noDotDot_of_not_mem {s : Str} (h : dotdot ∉ components s) : noDotDot s = true := by
+  unfold noDotDot
+  simpa using h
+
+theorem resolveFrom_of_not_mem (t : Tree) (cur : Path) (cs : List Str) (h : dotdot ∉ cs) :
+    resolveFrom t cur cs = some (cur ++ cs) := by
+  induction cs generalizing cur with
+  | nil => simp [resolveFrom]
+  | cons c cs ih =>
+    have hc : (c == dotdot) = false := by
+      simp only [beq_eq_false_iff_ne, ne_eq]
+      intro e; exact h (by simp [e])
+    have hcs : dotdot ∉ cs := fun e => h (by simp [e])
+    simp only [resolveFrom, hc, Bool.false_eq_true, ↓reduceIte]
+    rw [ih _ hcs]; simp
+
+/-- without a `..` component a path string names its components -/
+theorem resolve_eq_components (t : Tree) (s : Str) (h : noDotDot s = true) :
+    resolve t s = some (components s) := by
+  unfold resolve
+  rw [resolveFrom_of_not_mem t [] _ (not_mem_of_noDotDot h)]; simp
+
+theorem endsDotDot_of_noDotDot {s : Str} (h : noDotDot s = true) : endsDotDot s = false := by
+  unfold endsDotDot
+  cases hl : (components s).getLast? with
+  | none => rfl
+  | some x =>
+    have hx : x ∈ components s := List.mem_of_getLast? hl
+    have : x ≠ dotdot := fun e => not_mem_of_noDotDot h (e ▸ hx)
+    simp [this]
+
+theorem dirOnly_of_noDotDot {s : Str} (h : noDotDot s = true) : dirOnly s = trailingSlash s := by
+  simp [dirOnly, endsDotDot_of_noDotDot h]
+
+theorem resolveFrom_append (t : Tree) (cur : Path) (a b : List Str) :
+    resolveFrom t cur (a ++ b) = (resolveFrom t cur a).bind fun q => resolveFrom t q b := by
+  induction a generalizing cur with
+  | nil => simp [resolveFrom]
+  | cons c cs ih =>
+    simp only [List.cons_append, resolveFrom]
+    split
+    · split
+      · exact ih _
+      · rfl
+    · exact ih _
+
+/-- resolution looks at the tree only through `isDir` -/
+theorem resolveFrom_congr {t t' : Tree} (h : ∀ q, isDir t' q = isDir t q) (cur : Path) (cs : List Str) :
+    resolveFrom t' cur cs = resolveFrom t cur cs := by
+  induction cs generalizing cur with
+  | nil => rfl
+  | cons c cs ih => simp only [resolveFrom, h, ih]
+
+theorem resolve_congr {t t' : Tree} (h : ∀ q, isDir t' q = isDir t q) (s : Str) : resolve t' s = resolve t s :=
+  resolveFrom_congr h _ _
+
+/-- a path string that resolves in a tree with fewer directories resolves to the same path in the larger one -/
+theorem resolveFrom_mono {t t' : Tree} (h : ∀ q, isDir t' q = true → isDir t q = true) (cur : Path)
+    (cs : List Str) (p : Path) (hr : resolveFrom t' cur cs = some p) : resolveFrom t cur cs = some p := by
+  induction cs generalizing cur with
+  | nil => exact hr
+  | cons c cs ih =>
+    simp only [resolveFrom] at hr ⊢
+    split at hr
+    · next hc =>
+      rw [if_pos hc]
+      split at hr
+      · next hd => rw [if_pos (h _ hd)]; exact ih _ hr
+      · cases hr
+    · next hc => rw [if_neg hc]; exact ih _ hr
+
+theorem resolve_mono {t t' : Tree} (h : ∀ q, isDir t' q = true → isDir t q = true) (s : Str) (p : Path)
+    (hr : resolve t' s = some p) : resolve t s = some p := resolveFrom_mono h _ _ _ hr
+
+/-- `..` from an existing directory: its parent -/
+theorem resolveFrom_dotdot (t : Tree) (cur : Path) (h : isDir t cur = true) :
+    resolveFrom t cur [dotdot] = some (parent cur) := by
+  simp [resolveFrom, h]
+
+/-- `..` from anything else: nothing -/
+theorem resolveFrom_dotdot_none (t : Tree) (cur : Path) (cs : List Str) (h : isDir t cur = false) :
+    resolveFrom t cur (dotdot :: cs) = none := by
+  simp [resolveFrom, h]
+
+/-- the content of a file that can be read is the content of an entry of the tree -/
+theorem fileRead_mem (t : Tree) (s c : Str) (h : fileRead t s = some c) : ∃ p, (p, FsNode.file c) ∈ t := by
+  unfold fileRead at h
+  cases hr : resolve t s with
+  | none => rw [hr] at h; cases h
+  | some p =>
+    rw [hr] at h
+    simp only [] at h
+    unfold fileReadAt at h
+    split at h
+    · cases h
+    · split at h
+      · next c' hf => cases h; exact ⟨p, mem_of_find?_file hf⟩
+      · cases h
+
+/-! ## splitting a path string at a `/` -/
+
+theorem splitSlash_ne_nil (s : Str) : splitSlash s ≠ [] := by
+  cases s with
+  | nil => simp [splitSlash]
+  | cons c cs =>
+    unfold splitSlash
+    split
+    · simp
+    · split <;> simp
+
+theorem splitSlash_append_slash (a b : Str) : splitSlash (a ++ '/' :: b) = splitSlash a ++ splitSlash b := by
+  induction a with
+  | nil => simp [splitSlash]
+  | cons c cs ih =>
+    simp only [List.cons_append]
+    rw [splitSlash, splitSlash, ih]
+    split
+    · rfl
+    · cases hs : splitSlash cs with
+      | nil => exact absurd hs (splitSlash_ne_nil cs)
+      | cons h tl => rfl
+
+theorem components_append_slash (a b : Str) : components (a ++ '/' :: b) = components a ++ components b := by
+  unfold components
+  rw [splitSlash_append_slash, List.filter_append]
+
+/-- the path string `d/../x` -/
+def upFrom (d x : Str) : Str := d ++ '/' :: (dotdot ++ '/' :: x)
+
+theorem components_upFrom (d x : Str) : components (upFrom d x) = components d ++ dotdot :: components x := by
+  unfold upFrom
+  rw [components_append_slash, components_append_slash]
+  rfl
+
+/-! ## `mkdirVisits` -/
+
+theorem mkdirVisits_of_not_mem (cur : Path) (cs : List Str) (h : dotdot ∉ cs) :
+    mkdirVisits cur cs = (prefixes cs).map (cur ++ ·) := by
+  induction cs generalizing cur with
+  | nil => rfl
+  | cons c cs ih =>
+    have hc : (c == dotdot) = false := by
+      simp only [beq_eq_false_iff_ne, ne_eq]
+      intro e; exact h (by simp [e])
+    have hcs : dotdot ∉ cs := fun e => h (by simp [e])
+    simp only [mkdirVisits, hc, Bool.false_eq_true, ↓reduceIte, prefixes, List.map_cons, List.map_map]
+    rw [ih _ hcs]
+    congr 1
+    apply List.map_congr_left
+    intro x _
+    simp
+
+theorem mkdirVisits_eq_prefixes (s : Str) (h : noDotDot s = true) :
+    mkdirVisits [] (components s) = prefixes (components s) := by
+  rw [mkdirVisits_of_not_mem [] _ (not_mem_of_noDotDot h)]
+  simp
+
+theorem mkdirVisits_append (cur : Path) (a b : List Str) :
+    mkdirVisits cur (a ++ b) = mkdirVisits cur a ++
+      mkdirVisits (a.foldl (fun q c => if c == dotdot then parent q else q ++ [c]) cur) b := by
+  induction a generalizing cur with
+  | nil => rfl
+  | cons c cs ih =>
+    simp only [List.cons_append, mkdirVisits, List.foldl_cons]
+    split
+    · exact ih _
+    · rw [ih]; rfl
+
+theorem ne_nil_of_mem_mkdirVisits {cur : Path} {cs : List Str} {q : Path} (h : q ∈ mkdirVisits cur cs) :
+    q ≠ [] := by
+  induction cs generalizing cur with
+  | nil => simp [mkdirVisits] at h
+  | cons c cs ih =>
+    simp only [mkdirVisits] at h
+    split at h
+    · exact ih h
+    · rcases List.mem_cons.1 h with h | h
+      · rw [h]; simp
+      · exact ih h
+
+/-- in `prefixes p` what comes before an element is a prefix of it -/
+theorem prefixes_split {p : Path} {l1 l2 : List Path} {f : Path} (h : prefixes p = l1 ++ f :: l2) :
+    ∀ q ∈ l1, q.isPrefixOf f = true := by
+  induction p generalizing l1 l2 f with
+  | nil => simp [prefixes] at h
+  | cons c cs ih =>
+    simp only [prefixes] at h
+    cases l1 with
+    | nil => simp
+    | cons a l1' =>
+      simp only [List.cons_append, List.cons.injEq] at h
+      obtain ⟨ha, h⟩ := h
+      obtain ⟨m1, m2, hcs, hm1, hm2⟩ := List.map_eq_append_iff.1 h
+      cases m2 with
+      | nil => simp at hm2
+      | cons f' m2' =>
+        simp only [List.map_cons, List.cons.injEq] at hm2
+        obtain ⟨hf, _⟩ := hm2
+        intro q hq
+        rcases List.mem_cons.1 hq with hq | hq
+        · rw [hq, ← ha, ← hf]; simp [List.isPrefixOf]
+        · rw [← hm1] at hq
+          obtain ⟨q', hq', rfl⟩ := List.mem_map.1 hq
+          rw [← hf]
+          simp only [List.isPrefixOf, beq_self_eq_true, Bool.true_and]
+          exact ih hcs q' hq'
+
+theorem takeWhile_append_stop {α} (q : α → Bool) (as : List α) (b : α) (bs : List α)
+    (has : ∀ a ∈ as, q a = true) (hb : q b = false) : (as ++ b :: bs).takeWhile q = as := by
+  induction as with
+  | nil => simp [hb]
+  | cons a as ih =>
+    simp only [List.cons_append, List.takeWhile_cons, has a (by simp), ↓reduceIte, List.cons.injEq, true_and]
+    exact ih fun x hx => has x (by simp [hx])
+
+/-! ## the model before `..`: every path string is read lexically (`..` an ordinary name) -/
+
+namespace Lexical
+
+def existsS (t : Tree) (s : Str) : Bool :=
+  s != [] && (if trailingSlash s then isDir t (components s) else pathExists t (components s))
+def isFileS (t : Tree) (s : Str) : Bool := s != [] && !trailingSlash s && isFile t (components s)
+def isDirS (t : Tree) (s : Str) : Bool := s != [] && isDir t (components s)
+
+def fileCreate (t : Tree) (s : Str) : Tree × Bool :=
+  let p := components s
+  if s == [] || trailingSlash s || p == [] || pathExists t p || !isDir t (parent p) then (t, false)
+  else (put t p (.file []), true)
+
+def fileRemove (t : Tree) (s : Str) : Tree × Bool :=
+  let p := components s
+  if s != [] && !trailingSlash s && isFile t p then (erase t p, true) else (t, false)
+
+def fileRead (t : Tree) (s : Str) : Option Str :=
+  if s == [] || trailingSlash s then none else
+  match find? t (components s) with
+  | some (.file c) => some c
+  | _ => none
+
+def fileAppend (t : Tree) (s : Str) (text : Str) : Tree × Bool :=
+  let p := components s
+  if s == [] || trailingSlash s then (t, false) else
+  match find? t p with
+  | some (.file c) => (put t p (.file (c ++ text)), true)
+  | _ => (t, false)
+
+def fileOverwrite (t : Tree) (s : Str) (text : Str) : Tree × Bool :=
+  let p := components s
+  if s == [] || trailingSlash s then (t, false) else
+  match find? t p with
+  | some (.file _) => (put t p (.file text), true)
+  | _ => (t, false)
+
+def dirCreate (t : Tree) (s : Str) : Tree × Bool :=
+  let p := components s
+  if s == [] || p == [] || pathExists t p || !isDir t (parent p) then (t, false)
+  else (put t p .dir, true)
+
+def dirCreateAll (t : Tree) (s : Str) : Tree × Bool :=
+  let p := components s
+  if (prefixes p).any (fun q => isFile t q) then (t, false)
+  else ((prefixes p).foldl (fun acc q => if pathExists acc q then acc else put acc q .dir) t, true)
+
+def dirRemove (t : Tree) (s : Str) : Tree × Bool :=
+  let p := components s
+  if s != [] && p != [] && isDir t p && (children t p).isEmpty then (erase t p, true) else (t, false)
+
+def dirRemoveAll (t : Tree) (s : Str) : Tree × Bool :=
+  let p := components s
+  if s != [] && p != [] && isDir t p then (eraseUnder t p, true)
+  else if s != [] && p == [] then ([], false)
+  else (t, false)
+
+def dirRead (t : Tree) (s : Str) : Option (List Str) :=
+  let p := components s
+  if s == [] || !isDir t p then none else
+  let base : Str := if s.getLast? == some '/' then s else s ++ ['/']
+  some ((children t p).map fun q => base ++ (q.getLast?.getD []))
+
+end Lexical
+
+/-! ## without `..` the model is the lexical one -/
+
+section
+variable (t : Tree) (s : Str) (h : noDotDot s = true)
+include h
+
+theorem existsS_eq_lexical : existsS t s = Lexical.existsS t s := by
+  simp [existsS, Lexical.existsS, existsAt, resolve_eq_components t s h, dirOnly_of_noDotDot h]
+theorem isFileS_eq_lexical : isFileS t s = Lexical.isFileS t s := by
+  simp [isFileS, Lexical.isFileS, isFileAt, resolve_eq_components t s h, dirOnly_of_noDotDot h]
+theorem isDirS_eq_lexical : isDirS t s = Lexical.isDirS t s := by
+  simp [isDirS, Lexical.isDirS, isDirAt, resolve_eq_components t s h]
+theorem fileCreate_eq_lexical : fileCreate t s = Lexical.fileCreate t s := by
+  simp [fileCreate, Lexical.fileCreate, fileCreateAt, resolve_eq_components t s h, dirOnly_of_noDotDot h]
+theorem fileRemove_eq_lexical : fileRemove t s = Lexical.fileRemove t s := by
+  simp [fileRemove, Lexical.fileRemove, fileRemoveAt, resolve_eq_components t s h, dirOnly_of_noDotDot h]
+theorem fileRead_eq_lexical : fileRead t s = Lexical.fileRead t s := by
+  simp [fileRead, Lexical.fileRead, fileReadAt, resolve_eq_components t s h, dirOnly_of_noDotDot h]
+  split
+  · rfl
+  · cases find? t (components s) with
+    | none => rfl
+    | some n => cases n <;> rfl
+theorem fileAppend_eq_lexical (text : Str) : fileAppend t s text = Lexical.fileAppend t s text := by
+  simp [fileAppend, Lexical.fileAppend, fileAppendAt, resolve_eq_components t s h, dirOnly_of_noDotDot h]
+  split
+  · rfl
+  · cases find? t (components s) with
+    | none => rfl
+    | some n => cases n <;> rfl
+theorem fileOverwrite_eq_lexical (text : Str) : fileOverwrite t s text = Lexical.fileOverwrite t s text := by
+  simp [fileOverwrite, Lexical.fileOverwrite, fileOverwriteAt, resolve_eq_components t s h, dirOnly_of_noDotDot h]
+  split
+  · rfl
+  · cases find? t (components s) with
+    | none => rfl
+    | some n => cases n <;> rfl
+theorem dirCreate_eq_lexical : dirCreate t s = Lexical.dirCreate t s := by
+  simp [dirCreate, Lexical.dirCreate, dirCreateAt, resolve_eq_components t s h, endsDotDot_of_noDotDot h]
+theorem dirRemove_eq_lexical : dirRemove t s = Lexical.dirRemove t s := by
+  simp [dirRemove, Lexical.dirRemove, dirRemoveAt, resolve_eq_components t s h, endsDotDot_of_noDotDot h]
+theorem dirRemoveAll_eq_lexical : dirRemoveAll t s = Lexical.dirRemoveAll t s := by
+  simp only [dirRemoveAll, Lexical.dirRemoveAll, dirRemoveAllAt, resolve_eq_components _ s h,
+    endsDotDot_of_noDotDot h, Bool.or_false]
+  by_cases hs : s = []
+  · simp [hs]
+  · by_cases hp : components s = []
+    · simp [hs, hp, isDir_nil, eraseBelow_nil]
+    · by_cases hd : isDir t (components s) = true <;> simp [hs, hp, hd]
+theorem dirRead_eq_lexical : dirRead t s = Lexical.dirRead t s := by
+  simp [dirRead, Lexical.dirRead, dirReadAt, resolve_eq_components t s h]
+
+theorem dirCreateAll_eq_lexical : dirCreateAll t s = Lexical.dirCreateAll t s := by
+  unfold dirCreateAll Lexical.dirCreateAll
+  simp only [mkdirVisits_eq_prefixes s h]
+  cases hf : List.find? (fun q => isFile t q) (prefixes (components s)) with
+  | none =>
+    have : (prefixes (components s)).any (fun q => isFile t q) = false := by
+      rw [List.find?_eq_none] at hf
+      simpa using hf
+    simp only [this, Bool.false_eq_true, ↓reduceIte]
+    rfl
+  | some f =>
+    have hany : (prefixes (components s)).any (fun q => isFile t q) = true := by
+      rw [List.any_eq_true]
+      exact ⟨f, List.mem_of_find?_eq_some hf, List.find?_some hf⟩
+    simp only [hany, ↓reduceIte]
+    obtain ⟨hpf, as, bs, hsplit, has⟩ := List.find?_eq_some_iff_append.1 hf
+    have htw : (prefixes (components s)).takeWhile (fun q => !isFile t q) = as := by
+      rw [hsplit]
+      exact takeWhile_append_stop _ as f bs (fun a ha => by simpa using has a ha) (by simp [hpf])
+    rw [htw]
+    have hnil : as.filter (fun q => !(q.isPrefixOf f)) = [] := by
+      rw [List.filter_eq_nil_iff]
+      intro a ha
+      simp [prefixes_split hsplit a ha]
+    rw [hnil]
+    rfl
+
+end
 
 end Aplang.Fs
